@@ -125,6 +125,14 @@ def cases(tier, rng):
                     for first in ("", " mon"):
                         out.append("v%d rt %s%s / bind %s / staller 0 off=%d mode=stop / moninstall / finish 0 %s / monitor" % (k, l, first, tr, off, how))
                         k += 1
+    # the local socket's OWN identity option plays no part in admission: a peer announcing the very same identity is a
+    # well-formed compatible peer
+    for l in LOCALS:
+        good = [p for p in NAMES if (l, p) in COMPAT][0]
+        for ident in (b"node-1", b"n" * 255):
+            out.append("u%d sock %s id=%s / attach a %s id=%s / attach b %s id=%s / dropped a / dropped b" %
+                       (k, l, W.tok(ident), good, W.tok(ident), good, W.tok(ident + b"x" if len(ident) < 255 else b"m" * 255)))
+            k += 1
     # admission is independent of segmentation (C02 hand-over) and needs no EOF
     for l in LOCALS:
         good = [p for p in NAMES if (l, p) in COMPAT][0]
@@ -236,6 +244,10 @@ def judge(line, impl_obs, orc):
               and toks[2] == "att:q=ok:auto" and toks[3:] == ["dropped:p=" + keep, "dropped:a=" + keep, "dropped:q=" + keep])
         if not ok:
             return "a generated identity must be fresh with respect to every identity in use (announced ones included): " + impl_obs[:160]
+        return None
+    if sp[0].startswith("u") and any(x.startswith("id=") for x in sp[3:4]):
+        if len(toks) < 2 or not toks[0].startswith("att:a=ok:") or not toks[1].startswith("att:b=ok:"):
+            return "a compatible peer announcing the identity the local socket is configured with was not admitted: " + impl_obs[:120]
         return None
     if sp[0].startswith("u"):
         keep = "r" if local == "PUSH" else "-"
